@@ -164,6 +164,25 @@ Qed.
 Lemma hex_encode_length bs : length (hex_encode bs) = (2 * length bs)%nat.
 Proof. induction bs as [|b r IH]; cbn [hex_encode length]; lia. Qed.
 
+Lemma hex_encode_app a b : hex_encode (a ++ b) = hex_encode a ++ hex_encode b.
+Proof. induction a as [|x a IH]; cbn [app hex_encode]; [reflexivity|]. now rewrite IH. Qed.
+
+Lemma hex_encode_firstn j : forall b, hex_encode (firstn j b) = firstn (2 * j) (hex_encode b).
+Proof.
+  induction j as [|j IH]; intros b; [reflexivity|].
+  destruct b as [|x b]; [reflexivity|].
+  replace (2 * S j)%nat with (S (S (2 * j))) by lia.
+  cbn [firstn hex_encode]. now rewrite IH.
+Qed.
+
+Lemma hex_encode_skipn j : forall b, hex_encode (skipn j b) = skipn (2 * j) (hex_encode b).
+Proof.
+  induction j as [|j IH]; intros b; [reflexivity|].
+  destruct b as [|x b]; [reflexivity|].
+  replace (2 * S j)%nat with (S (S (2 * j))) by lia.
+  cbn [skipn hex_encode]. now rewrite IH.
+Qed.
+
 (** The lenient decoder accepts exactly the letter-case variants of the
     canonical text: whatever decodes re-encodes to its lower-casing. *)
 Lemma hex_digit_lower c x : hex_val c = Some x -> hex_digit x = lower c.
